@@ -655,16 +655,47 @@ func dumpFunctions(repo string) ([]string, error) {
 		return nil, err
 	}
 	var out []string
+	relOf := func(path string) string { return strings.TrimPrefix(strings.TrimPrefix(path, modPath), "/") }
+	// static callers (top-level declarations) of every repository function
+	callers := map[*types.Func]map[string]bool{}
 	for _, pkg := range pkgs {
 		if !strings.HasPrefix(pkg.PkgPath, modPath) {
 			continue
 		}
-		rel := strings.TrimPrefix(strings.TrimPrefix(pkg.PkgPath, modPath), "/")
+		for _, f := range pkg.Syntax {
+			for _, d := range f.Decls {
+				fd, ok := d.(*ast.FuncDecl)
+				if !ok || fd.Body == nil {
+					continue
+				}
+				self, _ := pkg.TypesInfo.Defs[fd.Name].(*types.Func)
+				if self == nil {
+					continue
+				}
+				ast.Inspect(fd.Body, func(n ast.Node) bool {
+					if call, ok := n.(*ast.CallExpr); ok {
+						if callee := typeutil.StaticCallee(pkg.TypesInfo, call); callee != nil && callee.Pkg() != nil && strings.HasPrefix(callee.Pkg().Path(), modPath) {
+							if callers[callee] == nil {
+								callers[callee] = map[string]bool{}
+							}
+							callers[callee][relOf(pkg.PkgPath)+"."+declName(self)] = true
+						}
+					}
+					return true
+				})
+			}
+		}
+	}
+	for _, pkg := range pkgs {
+		if !strings.HasPrefix(pkg.PkgPath, modPath) {
+			continue
+		}
+		rel := relOf(pkg.PkgPath)
 		for _, f := range pkg.Syntax {
 			for _, d := range f.Decls {
 				if fd, ok := d.(*ast.FuncDecl); ok {
 					if fn, ok := pkg.TypesInfo.Defs[fd.Name].(*types.Func); ok {
-						out = append(out, rel+"."+declName(fn)+"\t"+sigString(fn))
+						out = append(out, rel+"."+declName(fn)+"\t"+sigString(fn)+"\t"+strings.Join(sortedKeys(callers[fn]), ","))
 					}
 				}
 			}
@@ -889,12 +920,23 @@ func flattenOne(fset *token.FileSet, f *ast.File, src []byte, ctr *int) ([]byte,
 					}
 					assign = strings.Join(ts, ", ") + " = " + strings.Join(ns, ", ")
 				case len(r.Results) == nres:
-					var es, ts []string
+					// one statement per result, in order (the temporaries are fresh, so this equals the tuple
+					// assignment); a computed boolean is assigned through a branch, so that the conditions it
+					// is made of become branches of the caller's control-flow graph
+					var stmts []string
 					for i, e := range r.Results {
-						es = append(es, text(e))
-						ts = append(ts, tmp(i))
+						switch e.(type) {
+						case *ast.Ident, *ast.BasicLit, *ast.SelectorExpr:
+							stmts = append(stmts, tmp(i)+" = "+text(e))
+						default:
+							if rtypes[i] == "bool" {
+								stmts = append(stmts, "if "+text(e)+" { "+tmp(i)+" = true } else { "+tmp(i)+" = false }")
+							} else {
+								stmts = append(stmts, tmp(i)+" = "+text(e))
+							}
+						}
 					}
-					assign = strings.Join(ts, ", ") + " = " + strings.Join(es, ", ")
+					assign = strings.Join(stmts, "\n")
 				case len(r.Results) == 1 && nres > 1: // return g() with a tuple
 					var ts []string
 					for i := 0; i < nres; i++ {
@@ -909,7 +951,7 @@ func flattenOne(fset *token.FileSet, f *ast.File, src []byte, ctr *int) ([]byte,
 					repl = assign
 				} else {
 					usedGoto = true
-					repl = "{ " + assign + "; goto " + label + " }"
+					repl = "{\n" + assign + "\ngoto " + label + "\n}"
 					if assign == "" {
 						repl = "goto " + label
 					}
@@ -1024,6 +1066,24 @@ func flattenOne(fset *token.FileSet, f *ast.File, src []byte, ctr *int) ([]byte,
 				visitStmt(x.Else)
 			}
 		case *ast.ForStmt:
+			if x.Init == nil && x.Post == nil && x.Cond != nil {
+				if c, _ := litCallOfCond(x.Cond); c != nil && len(c.Args) == 0 {
+					// for f() { BODY }  ->  for { if !(f()) { break }; BODY }   (no post statement: continue still
+					// re-evaluates the condition first); the if is hoisted on the next pass
+					ca := fset.Position(x.Cond.Pos()).Offset
+					cb := fset.Position(x.Cond.End()).Offset
+					lb := fset.Position(x.Body.Lbrace).Offset
+					cond := string(src[ca:cb])
+					var out []byte
+					out = append(out, src[:ca]...)
+					out = append(out, src[cb:lb+1]...)
+					out = append(out, ("\nif !(" + cond + ") {\nbreak\n}\n")...)
+					out = append(out, src[lb+1:]...)
+					result = out
+					done = true
+					return
+				}
+			}
 			visitBlock(x.Body.List, false)
 		case *ast.RangeStmt:
 			visitBlock(x.Body.List, false)
@@ -1178,6 +1238,27 @@ func recvPart(key string) string {
 // functions of the same package, receiver type and signature; only unambiguous
 // matches count. It returns new key -> old key.
 func renamedFunctions(ref map[string]string, present map[string]string) map[string]string {
+	return renamedFunctionsC(ref, present, nil, nil)
+}
+
+// renamedFunctionsC additionally requires, when caller sets are known on both
+// sides, that the renamed function is called from the same functions as before
+// (a deleted function and an unrelated new one with the same signature are not
+// a rename).
+func renamedFunctionsC(ref map[string]string, present map[string]string, refCallers, presentCallers map[string]string) map[string]string {
+	out := renamedFunctions0(ref, present)
+	if refCallers == nil || presentCallers == nil {
+		return out
+	}
+	for newKey, oldKey := range out {
+		if refCallers[oldKey] != presentCallers[newKey] {
+			delete(out, newKey)
+		}
+	}
+	return out
+}
+
+func renamedFunctions0(ref map[string]string, present map[string]string) map[string]string {
 	type grp struct{ olds, news []string }
 	groups := map[string]*grp{}
 	for k, sig := range ref {
